@@ -11,7 +11,7 @@ from . import c01
 
 FOLDS = ({("PeerCrypto", "unencrypted"): True}, {("PeerCrypto", "unencrypted"): False})
 
-READER_CALLS = ("io::Read::read_exact", "io::Read::read", "ReadBytesExt::read_u8", "ReadBytesExt::read_u16", "ReadBytesExt::read_u32",
+READER_CALLS = ("io::Read::read_exact", "ReadBytesExt::read_u8", "ReadBytesExt::read_u16", "ReadBytesExt::read_u32",
                 "ReadBytesExt::read_u64", "ReadBytesExt::read_f32", "types::Range::read_from", "types::Address::read_from",
                 "types::Address::read_from_fixed", "messages::NodeInfo::read_addr_list_inner")
 SHRINK_CALLS = ("smallvec::SmallVec::pop", "vec::Vec::pop", "smallvec::SmallVec::swap_remove", "vec::Vec::swap_remove",
